@@ -546,6 +546,17 @@ def run(ctx):
     r6.check(outs["\tat org.javarosa.Foo.bar(Foo.java:12)"] is None and outs["plain diagnostic"] == "plain diagnostic"
              and outs["java.lang.RuntimeException: x"] == "x", "ErrorCleaner._remove_java_content",
              "Java stack lines are removed, exception-class prefixes stripped, diagnostics kept", rj.loc(), why_fail=f"{outs!r}")
+    # wrapped exceptions: every Java class-name prefix is noise, not only the outermost one ("Java stack noise removed")
+    for line_, want_ in (("java.lang.RuntimeException: org.javarosa.xpath.XPathUnhandledException: Cannot handle function 'foo'", "Cannot handle function 'foo'"),
+                         ("org.javarosa.xpath.XPathUnhandledException: java.lang.NullPointerException", ""),
+                         ("java.lang.RuntimeException: java.lang.NullPointerException: detail", ": detail"),
+                         ("org.javarosa.xform.parse.XFormParseException: Cycle detected", ": Cycle detected"), ("Something else: java.lang.RuntimeException: kept", "Something else: java.lang.RuntimeException: kept")):
+        it.reset([])
+        try:
+            got_ = it.call_function(rj, [line_], {}, None, rj.node)
+        except Raised as e:
+            got_ = f"raises {e.exc_name}"
+        r6.check(got_ == want_, f"ErrorCleaner._remove_java_content[{line_[:60]}]", f"-> {want_!r}", rj.loc(), why_fail=repr(got_))
     rt = ec.methods.get("_replace_xpath_with_tokens")
     it.reset([])
     def m(s):
